@@ -186,6 +186,18 @@ func NewWorld(u *Universe, st Strategy, lm ListMode) (*World, error) {
 			return nil, err
 		}
 	}
+	if st == Any && lm == ListIfaceSlice {
+		// the Go type of the plain data is registered for an object type and one of its fields bound to a Go field
+		// that holds something else: with a root resolver installed that binding is never consulted
+		if _, has := u.Types["A"]; has {
+			if err := w.Root.RegisterType(&anyNode{}, "A"); err != nil {
+				return nil, err
+			}
+			if err := w.Root.RegisterField("A", "name", "Decoy"); err != nil {
+				return nil, err
+			}
+		}
+	}
 	return w, nil
 }
 
@@ -345,7 +357,7 @@ func (w *World) node(id string) interface{} {
 			n = refluni.New(w, w.U.NodeType[id], id)
 		}
 	default:
-		n = &anyNode{id: id}
+		n = &anyNode{id: id, Decoy: "decoy"}
 	}
 	w.nodes[id] = n
 	return n
@@ -794,7 +806,12 @@ func (n *resNode) Resolve(field *ggql.Field, args map[string]interface{}) (inter
 
 // ---- AnyResolver realisation
 
-type anyNode struct{ id string }
+// anyNode is the data behind an installed root resolver. Decoy is what reflection would read if it were asked (it is
+// bound to A.name on some roots): the installed root resolver takes precedence over reflection.
+type anyNode struct {
+	id    string
+	Decoy string
+}
 
 type anyRes struct{ w *World }
 
